@@ -1,8 +1,10 @@
 #!/bin/bash
-# usage: confirm_all.sh <worktree> <seeddir>...   (filter derived from the new test file in demo.diff)
+# usage: confirm_all.sh <worktree> <seeddir>...   (filter derived from the new test file in demo.diff; files under tests/ are test binaries)
 WT=$1; shift
 for SD in "$@"; do
-  F=$(grep -E '^\+\+\+ b/.*\.rs' $SD/demo.diff | grep -v 'mod.rs' | head -1 | sed 's#.*/##; s#\.rs##')
+  P=$(grep -E '^\+\+\+ b/.*\.rs' $SD/demo.diff | grep -v 'mod.rs' | head -1 | sed 's#^+++ b/##')
+  F=$(basename $P .rs)
+  case "$P" in tests/*|crates/*/tests/*) F="binary:$F";; esac
   echo "##### $SD filter=$F"
   /verif/tools/confirm_seed.sh $WT $SD $F
 done
